@@ -336,7 +336,10 @@ func runLifeMode(mode string, r *vlib.Rand, keys map[string]struct{}) {
 		// the Shutdown an OnClose returns must count whichever way that close came about
 		for i, via := range triggerVias {
 			c := cfgs[(i+int(res.Seed))%len(cfgs)]
-			n := runLifeCase(c, res.Seed*1000213+uint64(i), lifeOpts{npeers: r.Pick(0, 3, 6), shutdownFrom: "OnClose", moment: "idle", via: via}, keys)
+			if i%2 == 0 {
+				c.Loops = 1 // several connections left on ONE loop when the sweep starts: each of their OnClose calls returns Shutdown
+			}
+			n := runLifeCase(c, res.Seed*1000213+uint64(i), lifeOpts{npeers: r.Pick(12, 20, 30), shutdownFrom: "OnClose", moment: "idle", via: via}, keys)
 			res.Eval(n)
 			res.Checkpoint()
 		}
